@@ -251,6 +251,41 @@ pub fn run(args: &Args) -> ! {
         }
     }
 
+    // ---- 1b. the same through a configuration file ----------------------------
+    // (content of the file, arguments, expected status, stdout must be empty)
+    {
+        let cfg = scratch.path.join("rgconfig");
+        let rows: Vec<(&str, Vec<&str>, i32, bool)> = vec![
+            ("--help\n", vec!["needle"], 0, false),
+            ("-h\n", vec!["needle"], 0, false),
+            ("--version\n", vec!["needle"], 0, false),
+            ("-V\n", vec![], 0, false),
+            ("--pcre2-version\n", vec!["needle"], -1, false),
+            ("--no-such-flag\n", vec!["needle"], 2, true),
+            ("--regexp=(\n", vec![], 2, true),
+            ("--max-count=abc\n", vec!["needle"], 2, true),
+            ("--glob=[\n", vec!["needle"], 2, true),
+            ("-i\n", vec!["NEEDLE"], 0, false),
+            ("--help\n", vec!["--no-config", "nomatchatall"], 1, true),
+        ];
+        for (content, a, status, empty_stdout) in rows {
+            std::fs::write(&cfg, content).unwrap_or_else(|_| machinery_error("scratch"));
+            let out = Command::new(&rg).current_dir(scratch.path.join("mixed")).env("RIPGREP_CONFIG_PATH", &cfg).args(&a).output().unwrap_or_else(|_| machinery_error("rg"));
+            total.runs += 1;
+            *total.by_kind.entry("config-file-argument".into()).or_insert(0) += 1;
+            let code = out.status.code();
+            // (--pcre2-version: 0 or 1 depending on how rg was built; never a crash)
+            let status_ok = if status == -1 { code == Some(0) || code == Some(1) } else { code == Some(status) };
+            let stderr = String::from_utf8_lossy(&out.stderr).to_string();
+            if !status_ok || (empty_stdout && !out.stdout.is_empty()) || (status == 2 && out.stderr.is_empty()) || stderr.contains("panicked") {
+                total.disc.push((
+                    format!("config-file-argument | {:?} | {:?}", content, a),
+                    json!({"kind":"config-file-argument","config":content,"args":a,"status":code,"expected_status":status,"stdout":esc(&out.stdout[..out.stdout.len().min(200)]),"stderr":stderr[..stderr.len().min(300)].to_string()}),
+                ));
+            }
+        }
+    }
+
     // ---- 2. injected syscall faults at every index ---------------------------
     let mut configs = vec![];
     for ti in 0..ts.len() {
@@ -575,7 +610,7 @@ pub fn run(args: &Args) -> ! {
     ev.set("faults_by_kind", json!(total.by_kind));
     ev.set(
         "rule",
-        "real rg binary on 3 trees (mixed / all files match / none matches) x 6 modes (standard, -c, -l, -q, --files, --json) x -j1 and -j2 (the latter under the replay scheduler's default schedule so that 'the k-th call' is well defined): the run is repeated under `strace -e inject=<syscall>:error=<E>:when=k` for EVERY k up to the number of such calls in the fault-free run, for openat->EACCES, openat->ENOENT, read->EIO, getdents64->EACCES, write->EPIPE; the injected call's path is recovered from the strace log (faults on start-up files are skipped). Decision table: a fault on a tree path => a diagnostic naming it on stderr, exit status 2 (0 allowed for -q with a match), the other files' results identical to the fault-free run; EPIPE on stdout => status 0, empty stderr, no further file opened (promptly). Plus: 61 invalid argument sets (regex, pattern file, engine, globs for -g / --iglob / --pre-glob with and without a preprocessor, types, encoding, numbers, sizes, sort / colour / hyperlink choices, unknown flags, under --files / -c / -l / --json) => status 2, a diagnostic and empty stdout; real faults as uid 65534 (mode-000 file and directory, dangling symlinks, a symlink loop under -L, a preprocessor failing silently, missing paths, -q, -q --stats, -q --json and --no-messages variants); the stdout consumer closing after k bytes for every k up to 120 (400) and around every buffer boundary, in 13 variants (-j1/-j2, --line-buffered, --files, -c, --json, --pre cat at -j1 and -j2, -z with gzip files, transcoding, --passthru with a pattern that matches nothing at -j1 and -j2) => status 0 and no diagnostic.",
+        "real rg binary on 3 trees (mixed / all files match / none matches) x 6 modes (standard, -c, -l, -q, --files, --json) x -j1 and -j2 (the latter under the replay scheduler's default schedule so that 'the k-th call' is well defined): the run is repeated under `strace -e inject=<syscall>:error=<E>:when=k` for EVERY k up to the number of such calls in the fault-free run, for openat->EACCES, openat->ENOENT, read->EIO, getdents64->EACCES, write->EPIPE; the injected call's path is recovered from the strace log (faults on start-up files are skipped). Decision table: a fault on a tree path => a diagnostic naming it on stderr, exit status 2 (0 allowed for -q with a match), the other files' results identical to the fault-free run; EPIPE on stdout => status 0, empty stderr, no further file opened (promptly). Plus: 61 invalid argument sets (regex, pattern file, engine, globs for -g / --iglob / --pre-glob with and without a preprocessor, types, encoding, numbers, sizes, sort / colour / hyperlink choices, unknown flags, under --files / -c / -l / --json) => status 2, a diagnostic and empty stdout; 11 rows of arguments coming from a RIPGREP_CONFIG_PATH file (special modes, invalid flags and values: the documented status, never a crash); real faults as uid 65534 (mode-000 file and directory, dangling symlinks, a symlink loop under -L, a preprocessor failing silently, missing paths, -q, -q --stats, -q --json and --no-messages variants); the stdout consumer closing after k bytes for every k up to 120 (400) and around every buffer boundary, in 13 variants (-j1/-j2, --line-buffered, --files, -c, --json, --pre cat at -j1 and -j2, -z with gzip files, transcoding, --passthru with a pattern that matches nothing at -j1 and -j2) => status 0 and no diagnostic.",
     );
     ev.set("samples", json!([{"tree": "mixed", "mode": "standard", "fault": "openat:error=EACCES:when=17 (d/c.txt)"}, {"pipe": "rg -j1 --line-buffered needle, consumer closes after 37 bytes"}]));
     ev.assume("strace's fault injector; setpriv to drop root so that mode 000 is effective");
